@@ -21,11 +21,13 @@ def hexs(s):
 
 
 class Proc:
-    def __init__(self, lib, drv, shim, d, shimmed):
+    def __init__(self, lib, drv, shim, d, shimmed, lstat=False):
         env = {}
         self.ctl = os.path.join(d, 'ctl.%d' % id(self))
         if shimmed:
             env = {'LD_PRELOAD': shim, 'FSSHIM_CTL': self.ctl, 'FSSHIM_LOG': os.path.join(d, 'log.%d' % id(self)), 'FSSHIM_DIR': os.path.join(d, 'tokens')}
+            if lstat:
+                env['FSSHIM_LSTAT'] = '1'
         self.p = P11(drv, lib, reuse=d, env_extra=env)
         self.p.timeout = 60
         self.gen = 0
@@ -189,6 +191,85 @@ def seq_proc(lib, p11drv, seed, idx, shim):
                     bad('process %d sees stale or wrong attribute(s) %s of %s after a committed change' % (b, ','.join(diff), name))
                 if findings:
                     break
+    finally:
+        for q in procs:
+            q.p.close()
+        import shutil
+        shutil.rmtree(d, ignore_errors=True)
+    return {'i': idx, 'trace': trace, 'findings': findings[:2], 'model_dis': [], 'model_evals': 0, 'stats': stats}
+
+
+def seq_scan_race(lib, p11drv, seed, idx, shim):
+    """file-operation granularity on the READING side: process A's C_FindObjectsInit (which re-lists the token directory) is
+    paused before its k-th file-system event - lstat of a directory entry included - while process B destroys a token object
+    (its files go away under A's scan); A resumes.  Afterwards nothing is lost for good: B creates another object, A must see
+    it (and not the destroyed one) and A's own C_CreateObject of a token object must work"""
+    rng = random.Random(seed * 49979693 + idx)
+    setup = P11(p11drv, lib, keep=True)
+    d = setup.dir
+    findings, trace = [], []
+    stats = {'case': 'scan_vs_destroy'}
+
+    def bad(m):
+        findings.append((m, len(trace)))
+    procs = []
+    try:
+        setup.op('init')
+        setup.op('inittoken tfree %s tok0' % SO)
+        s0 = setup.op('open t0 rw')['h']
+        setup.op('login %s 0 %s' % (s0, SO))
+        setup.op('initpin %s %s' % (s0, USER))
+        setup.op('logout %s' % s0)
+        setup.op('login %s 1 %s' % (s0, USER))
+        labs = [hexs('O%d_%d' % (idx, i)) for i in range(4)]
+        for l in labs:
+            setup.op('create %s 0=u:0 1=b:1 2=b:0 3=x:%s 0x11=x:%s' % (s0, l, l))
+        setup.op('fini')
+        setup.close()
+        A, B = Proc(lib, p11drv, shim, d, True, lstat=True), Proc(lib, p11drv, shim, d, False)
+        procs = [A, B]
+        if not A.start() or not B.start():
+            bad('a process cannot open the shared token')
+            return {'i': idx, 'trace': [], 'findings': findings, 'model_dis': [], 'model_evals': 0, 'stats': stats}
+        A.look()
+        B.look()
+        victim = rng.choice(labs)
+        k = rng.randint(1, 30)
+        stats['pause_point'] = k
+        import time, select
+        A.arm('pause %d' % k)
+        A.p.send('findinit %s' % A.s)
+        time.sleep(0.05)
+        rb = B.p.op('destroy %s %s' % (B.s, B.handles[victim]))
+        trace.append(('B destroy %s' % victim, rb))
+        A.arm('off')
+        ra = A.p.recv()
+        trace.append(('A findinit (paused before event %d)' % k, ra))
+        A.p.op('findfinal %s' % A.s)
+        if ra.get('rv') in ('DIED', 'HANG'):
+            bad('scan_vs_destroy: A did not return from C_FindObjectsInit (%s)' % ra.get('rv'))
+        else:
+            new = hexs('N%d' % idx)
+            rc = B.p.op('create %s 0=u:0 1=b:1 2=b:0 3=x:%s 0x11=x:%s' % (B.s, new, new))
+            trace.append(('B create', rc))
+            va = A.look()
+            seen = set(l.split('#')[0] for l in (va or {}))
+            trace.append(('A look', {'rv': '0x0', 'n': len(seen)}))
+            if va is None:
+                bad('scan_vs_destroy: A can no longer search after B destroyed an object under its directory scan')
+            else:
+                if rc.get('rv') == '0x0' and new not in seen:
+                    bad('scan_vs_destroy: A does not see the object B committed after B had destroyed another one under A\'s directory scan (A stopped re-reading the token)')
+                if rb.get('rv') == '0x0' and victim in seen:
+                    bad('scan_vs_destroy: A still sees the object B destroyed')
+                for l in labs:
+                    if l != victim and l not in seen:
+                        bad('scan_vs_destroy: A lost the untouched object %s' % bytes.fromhex(l).decode())
+            mine = hexs('M%d' % idx)
+            r2 = A.p.op('create %s 0=u:0 1=b:1 2=b:0 3=x:%s 0x11=x:%s' % (A.s, mine, mine))
+            trace.append(('A create', r2))
+            if r2.get('rv') != '0x0':
+                bad('scan_vs_destroy: A\'s own C_CreateObject of a token object answers %s afterwards' % r2.get('rv'))
     finally:
         for q in procs:
             q.p.close()
